@@ -331,7 +331,7 @@ func (w *W) promote(p *Pending, o types.Object) *ArrCtx {
 }
 
 func (w *W) newArr(n *Node, countVar types.Object) *ArrCtx {
-	arr := &ArrCtx{node: n, countVar: countVar, made: map[string]SVal{}, level: w.out}
+	arr := &ArrCtx{node: n, countVar: countVar, made: map[string]SVal{}, makePos: map[string]string{}, level: w.out}
 	for i, v := range []int64{0, -1, -2} {
 		arr.classes[i] = &Class{val: v, alive: true, assigned: map[string]string{}}
 	}
@@ -550,6 +550,7 @@ func (w *W) assign(l ast.Expr, v SVal, at ast.Node) {
 func (w *W) noteMake(pl *Place, mk MakeV) {
 	if w.pending != nil && w.pending.made != nil {
 		w.pending.made[pl.key()] = mk.size
+		w.pending.makePos[pl.key()] = mk.pos
 	}
 	if w.lastMade == nil {
 		w.lastMade = map[string]MakeV{}
